@@ -30,6 +30,7 @@ def check(chk, thorough=False):
     chk.run('C13.h', 'R-FLOW', 'the send entry queues a file over exactly the octets passed in (byte-array conversion only)', lambda ob: __import__('sa.props.common', fromlist=['entry_fidelity']).entry_fidelity(tree, ob, 'udpcl/agent.py', 'Agent.send_bundle_data'), floor=1)
     chk.run('C13.i', 'R-TRUTH', 'the MTU applied is the configured one: the configuration loader hands every setting on as read', lambda ob: __import__('sa.props.common', fromlist=['config_verbatim']).config_verbatim(tree, ob, 'udpcl/config.py'), floor=2)
     chk.run('C13.j', 'R-FRESH', 'the queues, maps and pacing state of a UDPCL agent belong to that agent object (created per instance, no shared default objects)', lambda ob: (__import__('sa.props.common', fromlist=['per_instance_state', 'fresh_defaults']).per_instance_state(tree, ob, 'udpcl/agent.py', ('Agent', 'TxSendWait')), __import__('sa.props.common', fromlist=['per_instance_state', 'fresh_defaults']).fresh_defaults(tree, ob, ['udpcl/agent.py', 'udpcl/config.py'])), floor=3)
+    chk.run('C13.k', 'R-ORDER', 'a bundle that cannot be sent costs that bundle only: the head item leaves the TX queue before it is worked on', lambda ob: __import__('sa.props.common', fromlist=['tx_queue_head_leaves_first']).tx_queue_head_leaves_first(tree, ob, 'udpcl/agent.py'), floor=1)
     chk.run('C13.f', 'R-PAIR', 'queue then announce the same id; ids come from a counter that only increments', lambda ob: c13f(tree, ob), floor=3)
 
 
@@ -205,9 +206,46 @@ def c13_tx_isolation(tree, ob):
                        'glib_timer_id stays set, so every later bundle is accepted and never emitted', c)
 
 
+def c13_sender_honest(tree, ob):
+    ''' "success" is reported when the datagram iterator of a transfer is exhausted, i.e. when every datagram was handed to
+    the socket.  (1) the socket wrapper lets a refused datagram be seen: an exception of sendmsg() leaves UdpSender.__call__
+    (caught there and only logged, the segment is never emitted and the transfer still ends as success).  (2) the pacing
+    credit only accumulates with time and is spent by what is sent: capped below the size of the waiting datagram it never
+    reaches it and everything queued behind stalls. '''
+    from ..cfg import handler_names
+    fs = FuncView(tree, UAGENT, 'UdpSender.__call__')
+    sends = [c for c in calls_in(fs.func) if isinstance(c.func, ast.Attribute) and c.func.attr in ('sendmsg', 'sendto', 'send')]
+    sd = one(sends, 'socket send in UdpSender.__call__', ob)
+    swallowed = False
+    prev = sd
+    cur = getattr(sd, '_parent', None)
+    while cur is not None and cur is not fs.func:
+        if isinstance(cur, ast.Try) and any(prev is st or prev in ast.walk(st) for st in cur.body):
+            for h in cur.handlers:
+                if not (h.body and isinstance(h.body[-1], ast.Raise)):
+                    swallowed = True
+        prev = cur
+        cur = getattr(cur, '_parent', None)
+    if swallowed:
+        ob.violate(UAGENT, fs.qual, src(sd)[:60] + ' inside try / except without re-raise', 'a datagram the socket refused (EAGAIN, EMSGSIZE) is only logged: the pacing loop takes it for sent, the transfer '
+                   'ends as "success" with a segment that never left', sd)
+    else:
+        ob.site(UAGENT, sd, 'a refused datagram raises out of the sender')
+    cls = tree.klass(UAGENT, 'TxSendWait')
+    for (f, st, k, v) in stores_to_self_attr(cls, 'tok_avail'):
+        if f.name == '__init__':
+            continue
+        if k == 'aug' and isinstance(st.op, (ast.Add, ast.Sub)):
+            ob.site(UAGENT, st, 'pacing credit ' + ('+=' if isinstance(st.op, ast.Add) else '-=') + ' in ' + f.name)
+        else:
+            ob.violate(UAGENT, 'TxSendWait.' + f.name, src(st)[:70], 'the pacing credit is set (capped, reset) instead of accumulated and spent: below the size of the datagram that waits for it, it never '
+                       'reaches that size again and the transfer -- and all behind it -- is never sent', st)
+
+
 def c13b(tree, ob):
     c13_tx_isolation(tree, ob)
     c13_pending_datagram(tree, ob)
+    c13_sender_honest(tree, ob)
     fv = FuncView(tree, UAGENT, QS)
     loop = _loop(fv, ob)
     til = tiling(fv, loop, ob, UAGENT, 'UDPCL segment tiling')
